@@ -107,6 +107,13 @@ func (vc *VC) doCall(st *State, f *Frame, instr ssa.Value, c *ssa.CallCommon, ar
 		vc.used["model:"+name] = true
 		return done(h(vc, st, c, args, pos))
 	}
+	if h, ok := kvModels[name]; ok {
+		vc.used["model:"+strings.TrimPrefix(name, vipnodeMod+"/")] = true
+		return done(h(vc, st, c, args, pos))
+	}
+	if (name == "(*"+badgerLib+".DB).Update" || name == "(*"+badgerLib+".DB).View") && len(args) == 2 {
+		return vc.kvTransaction(st, f, instr, c, args, strings.HasSuffix(name, "Update"), deferred)
+	}
 	if ct, ok := vc.eng.db.ByExtern[name]; ok {
 		vc.used["assumed-contract:"+name] = true
 		return done(vc.applyContract(st, ct, callee.Signature, args, callee, pos, "extern"))
@@ -850,6 +857,34 @@ func (vc *VC) callMods(fn *ssa.Function, c *ssa.CallCommon, li *loopInfo, visiti
 		}
 		return out
 	}
+	if _, ok := kvModels[name]; ok {
+		switch {
+		case strings.HasSuffix(name, ".getItem"):
+			if mi, ok := c.Args[2].(*ssa.MakeInterface); ok {
+				if pt, ok := mi.X.Type().Underlying().(*types.Pointer); ok {
+					out = append(out, vc.addrTarget(mi.X, li))
+					if mt, isMap := types.Unalias(pt.Elem()).Underlying().(*types.Map); isMap {
+						out = append(out, modTarget{kind: "map", mt: mt})
+					}
+				}
+			}
+		case strings.HasSuffix(name, ".hasKey"):
+		default:
+			out = append(out, modTarget{kind: "kv"})
+		}
+		return out
+	}
+	if name == "(*"+badgerLib+".DB).Update" || name == "(*"+badgerLib+".DB).View" {
+		out = append(out, modTarget{kind: "kv"})
+		if mc, ok := c.Args[1].(*ssa.MakeClosure); ok {
+			if fn, ok := mc.Fn.(*ssa.Function); ok && !visiting[fn] {
+				visiting[fn] = true
+				out = append(out, vc.loopMods(fn, nil, visiting)...)
+				delete(visiting, fn)
+			}
+		}
+		return out
+	}
 	if ct, ok := vc.eng.db.ByExtern[name]; ok {
 		contractMods(ct, name)
 		return out
@@ -1069,6 +1104,10 @@ func (vc *VC) finish(st *State, f *Frame, res []Value, pos token.Pos) {
 		}
 		ienv.old = vc.entry
 		for _, cl := range ict.Ensures {
+			if ct.ImplExcept[key+"."+cl.Label] {
+				vc.note("%s does not claim clause [%s] of %s", ct.Target, cl.Label, key)
+				continue
+			}
 			t, err := ienv.EvalBool(cl.E)
 			if err != nil {
 				vc.eng.specError(fmt.Sprintf("%s implements %s: ensures [%s]: %v", ct.Target, key, cl.Label, err))
